@@ -21,8 +21,8 @@ def prepare(case):
     return c
 
 
-def call(mod, c, Nthread, tracers=None):
-    halo, part, params = HC.build_inputs(c)
+def call(mod, c, Nthread, tracers=None, inputs=None):
+    halo, part, params = HC.build_inputs(c) if inputs is None else inputs
     if tracers is None:
         tracers = {t: dict(v) for t, v in c['tracers'].items()}
     res = mod.gen_gal_cat(halo, part, tracers, params, Nthread=Nthread, enable_ranks=c['enable_ranks'],
